@@ -41,6 +41,7 @@ EXPLANATION = (
     "(G6) the accessor of the response the follower reads for the next hop returns self.meta unaltered. "
     "(G7) max_redirects reaches the client as the caller's own value. "
     "(G5, fresh) callers start the follower with a fresh chain. (G9) = C19.N1-N3 for the TOFU key of every hop."
+    ' (G10) = C03.T2/T3 on the per-hop fetch: every literal verdict of TOFUDatabase.verify is handled, a failing one raises.'
 )
 
 SESSION = "client.session:GeminiClient"
